@@ -33,7 +33,7 @@ RULE = ("lattice: cases = (filter node subset, storage order), executions = resp
         "non-trivial = distinct (filter, SED grid) pairs whose overlap is non-empty and whose filter has a non-zero response")
 ASSUMPTIONS = ["non-negative responses, strictly positive distinct frequencies", "lattice exhaustive; beyond it a finite seed-derived family"]
 REQUIRED_CLASSES = ['bin-edge-on-filter-end', 'several-nodes-in-one-bin', 'filter-decreasing-nu', 'sed-decreasing-nu', 'partial-overlap-low', 'partial-overlap-high',
-                    'filter-outside-sed', 'empty-bin', 'normalized-flat', 'linearity', 'file-filter', 'pkg-v1', 'pkg-v2', 'pkg-errors', 'irregular']
+                    'filter-outside-sed', 'empty-bin', 'normalized-flat', 'linearity', 'file-filter', 'pkg-v1', 'pkg-v2', 'pkg-errors', 'irregular', 'seds-with-different-grids']
 TIMEOUT = {'quick': 600, 'thorough': 3000}
 
 LAT_F = [2, 3, 4, 5, 6]
@@ -63,6 +63,9 @@ def setup(tier, seed):
                 for memmap in ((True, False) if fmt == 'v2' else (False,)):
                     for rep in range(1 if tier == 'quick' else 4):
                         out.append({'fam': 'package', 'fmt': fmt, 'sord': sord, 'n_ap': n_ap, 'memmap': memmap, 'rep': rep})
+                        if fmt == 'v1':
+                            for g in ('interior', 'interior+length'):
+                                out.append({'fam': 'package', 'fmt': fmt, 'sord': sord, 'n_ap': n_ap, 'memmap': memmap, 'rep': rep, 'grids': g})
     return {'tier': tier, 'seed': seed, 'cases': out}
 
 
@@ -337,9 +340,25 @@ def _package(ctx, case, rec, d):
     os.makedirs(md)
     pkgwriter.write_conf(md, n_ap > 1, version=1 if fmt == 'v1' else 2)
     pkgwriter.write_parameters(md, names, {'par1': [1.0, 2.0, 3.0]})
+    wav_of = [wav] * n_models
+    if fmt == 'v1' and case.get('grids', 'same') != 'same':
+        # per-file SEDs need not share a grid: same length and same end points but other interior points,
+        # or another length altogether
+        w2 = wav.copy()
+        w2[1:-1] = w2[1:-1] * np.where(np.arange(n_wav - 2) % 2 == 0, 1.04, 0.97)
+        w3 = np.r_[wav[:4], 0.5 * (wav[3] + wav[4]), wav[4:]]
+        wav_of = [wav, w2, w3] if case['grids'] == 'interior+length' else [wav, w2, wav]
+        rec.cls('seds-with-different-grids')
     if fmt == 'v1':
         for m, nm in enumerate(names):
-            pkgwriter.write_sed_file(md, nm, wav, flux[m], err[m], apertures_au=ap)
+            if len(wav_of[m]) != n_wav:
+                fm = np.array([np.interp(wav_of[m][::-1] if wav_of[m][0] > wav_of[m][-1] else wav_of[m], np.sort(wav), flux[m, a][np.argsort(wav)]) for a in range(n_ap)])
+                fm = fm[:, ::-1] if wav_of[m][0] > wav_of[m][-1] else fm
+                flux_m, err_m = fm, fm * 0.1
+            else:
+                flux_m, err_m = flux[m], err[m]
+            pkgwriter.write_sed_file(md, nm, wav_of[m], flux_m, err_m, apertures_au=ap)
+            wav_of[m] = (wav_of[m], flux_m, err_m)
         rec.cls('pkg-v1')
     else:
         pkgwriter.write_cube(md, names, wav, flux, unc=err, apertures_au=ap)
@@ -366,6 +385,15 @@ def _package(ctx, case, rec, d):
     for f, (fx, fy) in zip(filters, ((f1x, np.asarray(filters[0].response)), (f2x, f2y))):
         R, over, tot = convref.rebin_exact(fx, fy, nu_inc)
         Rf = np.array([float(x) for x in R])
+        per_model = None
+        if fmt == 'v1' and case.get('grids', 'same') != 'same':
+            per_model = []
+            for m in range(n_models):
+                wm, fm, em = wav_of[m]
+                num = pkgwriter.C_M_S / (np.asarray(wm) * 1e-6)
+                om = np.argsort(num)
+                Rm = np.array([float(x) for x in convref.rebin_exact(fx, fy, num[om])[0]])
+                per_model.append((np.sum(fm[:, om] * Rm[None, :], axis=1), np.sqrt(np.sum((em[:, om] * Rm[None, :]) ** 2, axis=1))))
         path = os.path.join(md, 'convolved', f.name + '.fits')
         with fits.open(path) as h:
             t = h['CONVOLVED FLUXES'].data
@@ -376,8 +404,8 @@ def _package(ctx, case, rec, d):
         rec.ev(n_models * n_ap)
         rec.trans()
         rec.trace()
-        rec.state(('pkg', fmt, sord, n_ap, case['memmap'], case['rep'], f.name))
-        rec.nontriv(('pkg', fmt, sord, n_ap, case['memmap'], case['rep'], f.name))
+        rec.state(('pkg', fmt, sord, n_ap, case['memmap'], case['rep'], case.get('grids'), f.name))
+        rec.nontriv(('pkg', fmt, sord, n_ap, case['memmap'], case['rep'], case.get('grids'), f.name))
         sub = {'filter': f.name}
         if sorted(got_names) != sorted(names):
             rec.violation('convolve|names', sub, {'got': got_names})
@@ -386,6 +414,8 @@ def _package(ctx, case, rec, d):
             row = got_names.index(nm)
             ef = np.sum(flux[m][:, order] * Rf[None, :], axis=1)
             ee = np.sqrt(np.sum((err[m][:, order] * Rf[None, :]) ** 2, axis=1))
+            if per_model is not None:
+                ef, ee = per_model[m]
             tol = 1e-6 if (fmt == 'v2' and False) else 1e-10
             rec.outcome(tuple(np.round(gf[row], 6)))
             if not np.allclose(gf[row], ef, rtol=tol, atol=tol * np.max(np.abs(ef))):
